@@ -304,8 +304,146 @@ def loop_case(ctx, case):
             ctx.nt('l', repr(case), repr(plan))
 
 
+def reference_frames(stream, compressed):
+    """Tolerant reference parse of an arbitrary byte stream ->
+    (list of (id, payload) for the leading well-formed frames, verdict)
+    verdict: 'eof' (clean end), 'truncated', 'bad', 'ambiguous' (a shape on
+    which implementations may legitimately differ: > 5-byte varints, data
+    after the end of a zlib stream, empty zlib output)."""
+    import zlib
+    out = []
+    pos = 0
+    n = len(stream)
+
+    def rv(data, p):
+        v, q = wire.read_varint(data, p, 6)
+        if q - p > 5:
+            raise LookupError('ambiguous')
+        return v, q
+    while True:
+        if pos == n:
+            return out, 'eof'
+        try:
+            length, p = rv(stream, pos)
+        except wire.EOF:
+            return out, 'truncated'
+        except wire.Overlong:
+            return out, 'bad'
+        except LookupError:
+            return out, 'ambiguous'
+        if p + length > n:
+            return out, 'truncated'
+        body = stream[p:p + length]
+        try:
+            if compressed:
+                dl, q = rv(body, 0)
+                if dl:
+                    d = zlib.decompressobj()
+                    try:
+                        raw = d.decompress(body[q:])
+                    except zlib.error:
+                        return out, 'bad'
+                    if d.unused_data or not d.eof:
+                        return out, 'ambiguous'
+                    if len(raw) != dl:
+                        return out, 'bad'
+                    body = raw
+                else:
+                    body = body[q:]
+            pid, q = rv(body, 0)
+        except (wire.EOF, wire.Overlong):
+            return out, 'bad'
+        except LookupError:
+            return out, 'ambiguous'
+        out.append((pid, bytes(body[q:])))
+        pos = p + length
+
+
+def fuzz_stream_case(ctx, case):
+    """raw fuzzer input: byte0 mode, byte1 cipher/plan, byte2 chunk size,
+    rest = plaintext server stream (arbitrary bytes)."""
+    from minecraft.networking import encryption, packets
+    from minecraft.networking.connection import PacketReactor
+    b = case['input']
+    if len(b) < 3:
+        return
+    ctx.ev()
+    compressed = bool(b[0] & 1)
+    secret = bytes(range(16)) if b[1] & 1 else None
+    plan = ['whole', 'one', [max(1, b[2])], [max(1, b[2] % 7), 1000]][
+        (b[1] >> 1) & 3]
+    stream = bytes(b[3:])
+    want, verdict = reference_frames(stream, compressed)
+    world = vnet.World(servers=[_Null()], plan=plan)
+    world.block_guard = 0
+    got = []
+    err = None
+    with vnet.installed(world):
+        conn = make_conn()
+        if compressed:
+            conn.options.compression_enabled = True
+            conn.options.compression_threshold = 0
+
+        class R(PacketReactor):
+            get_clientbound_packets = staticmethod(
+                lambda context: {raw_class(i) for i in KNOWN})
+        reactor = R(conn)
+        link = world.accept(('h', 1))
+        link.max_eof_reads = 200
+        f = vnet.FakeFile(link)
+        data = stream
+        if secret is not None:
+            data = aes.cfb8_encrypt(secret, secret, stream)
+            f = encryption.EncryptedFileObjectWrapper(
+                f, encryption.create_AES_cipher(secret).decryptor())
+        link.emit(data)
+        link.server_close()
+        for _ in range(len(want) + 3):
+            try:
+                p = reactor.read_packet(f, timeout=0)
+            except vnet.KillThread:
+                err = 'spin'
+                break
+            except vnet.BlockedForever:
+                err = 'blocked'
+                break
+            except Exception as e:
+                err = e
+                break
+            if p is None:
+                err = 'returned None at end of stream'
+                break
+            if type(p) is packets.Packet:
+                got.append((p.id, None))
+            else:
+                got.append((p.id, getattr(p, 'data', None)))
+    sub = {'input': b}
+    if err in ('spin', 'blocked'):
+        ctx.fail('fuzz_stream', 'R1-reader-%s' % err, sub)
+        return
+    exp = [(i, p if i in KNOWN else None) for i, p in want]
+    if verdict == 'ambiguous':
+        if got[:len(exp)] != exp:
+            ctx.fail('fuzz_stream', 'R1-sequence', sub, got[:4], exp[:4])
+        ctx.label('fuzz_ambiguous')
+        return
+    if got != exp:
+        ctx.fail('fuzz_stream', 'R1-sequence', sub,
+                 (len(got), got[:3]), (len(exp), exp[:3], verdict))
+        return
+    if err is None or isinstance(err, str):
+        ctx.fail('fuzz_stream', 'R1-after-last-frame', sub, err,
+                 'an exception at end of stream / defective frame')
+    elif verdict == 'eof' and not isinstance(err, EOFError):
+        ctx.fail('fuzz_stream', 'R1-after-last-frame', sub, repr(err),
+                 'EOFError')
+    ctx.label('fuzz_' + verdict)
+    if len(exp) >= 2:
+        ctx.nt('fz', b)
+
+
 COMPONENTS = {'writer': writer_case, 'reader': reader_case,
-              'loop': loop_case}
+              'loop': loop_case, 'fuzz_stream': fuzz_stream_case}
 
 
 # --------------------------------------------------------------- strategies
@@ -420,10 +558,45 @@ def t_threshold_edges(ctx):
                         'table threshold')
 
 
+def t_fuzz(ctx, runs):
+    from vlib import fuzzrun
+    seeds = []
+    for fam in FAMILY:
+        for m in (None, 0):
+            st_ = b''.join(encode_stream({'packets': fam, 'mode': m,
+                                          'compress': [True, False]}))
+            seeds.append(bytes([0 if m is None else 1, 0, 3]) + st_)
+            seeds.append(bytes([0 if m is None else 1, 3, 2]) + st_[:-2])
+    fuzzrun.campaign(ctx, 'stream', 'fuzz_stream', runs, seeds=seeds,
+                     max_len=600)
+
+
+def t_fuzz_hyp(ctx, n):
+    # the same target driven by Hypothesis (mutated valid streams)
+    def mk(t):
+        case, flips, hdr = t
+        st_ = bytearray(b''.join(encode_stream(case)))
+        for pos, val in flips:
+            if st_:
+                st_[pos % len(st_)] = val
+        return {'input': bytes(hdr) + bytes(st_)}
+    base = case_strategy(4, False)
+    strat = st.tuples(base, st.lists(st.tuples(st.integers(0, 10 ** 6),
+                                               st.integers(0, 255)),
+                                     max_size=3),
+                      st.binary(min_size=3, max_size=3)).map(
+        lambda t: mk((dict(t[0], mode=(None if not t[2][0] & 1 else 0)),
+                      t[1], t[2])))
+    hyp(ctx, 'fuzz_hyp', strat, lambda c, case: fuzz_stream_case(c, case), n)
+
+
 def tasks(tier):
     q = tier == 'quick'
     ncomb = len(FAMILY) * len(MODES) * 2
-    tl = [('threshold_edges', t_threshold_edges, {})]
+    tl = [('threshold_edges', t_threshold_edges, {}),
+          ('mutated_streams', t_fuzz_hyp, dict(n=400 if q else 20000))]
+    if not q:
+        tl.append(('fuzz_stream', t_fuzz, dict(runs=400000)))
     nsh = 6
     for i in range(nsh):
         tl.append(('cuts_%d' % i, t_cuts,
